@@ -324,7 +324,7 @@ func runC04(c *core.Ctx) {
 	checkFlagsThroughMetadata(c, "R4.12")
 	c.Rule("R4.17", "a hit is read as the backend frames it: exactly one consumption of the 4 bytes of item flags between the reply header and the stored entry (metadata record, or token and chunk data)", 2)
 	runR417(c, "R4.17")
-	c.Share(map[string]string{"R10.16": "R4.19"}, runC10) // "all commands behave as on an unchunked map": replies left unread by one command are read by the next as its own
+	c.Share(map[string]string{"R10.16": "R4.19", "R10.5": "R4.20"}, runC10) // "all commands behave as on an unchunked map": replies left unread by one command are read by the next as its own
 	c.Share(map[string]string{"R16.4": "R4.13"}, runC16) // a chunk count that differs between metadata and chunk writer makes some lengths unreadable or leaves orphans
 }
 
